@@ -10,10 +10,9 @@ open EPV.CmpSpec EPV.CmpFind
 
 set_option maxHeartbeats 4000000 in
 theorem pairGeneral_conforms_GN (m : Mode) (op : Op) (a b : Atom) (i : Nat) (hi : numRank a = some i)
-    (h1 : trigTol false op a b = false) (h2 : trigPromotion false a b = false)
-    (h4 : trigUntyped op a b = false)
+    (h1 : trigTol op a b = false) (h2 : trigPromotion a b = false)
     (h5 : pairSpec m op a b ≠ .error .unsupported) (h6 : pairGeneral m op a b ≠ .error .unsupported)
-    (h8 : dtConsistent a b = true) (h9 : trigUntypedQN m a b = false) :
+    (h8 : dtConsistent a b = true) :
     pairGeneral m op a b = pairSpec m op a b := by
   cases hj : numRank b with
   | some j => exact pg_numeric m op a b i j hi hj h1 h2
@@ -21,11 +20,8 @@ theorem pairGeneral_conforms_GN (m : Mode) (op : Op) (a b : Atom) (i : Nat) (hi 
     cases a <;> simp [numRank] at hi <;> cases b <;> simp [numRank] at hj <;>
       first
       | (gp_simp; done)
-      | (simp [trigUntyped] at h4; done)
       | skip
-    case int.ua v s =>
-      simp [trigPromotion, numRank, exactVal, castNum] at h2
-      exact pg_num_ua m op s _ (.fin v) (Or.inl ⟨v, rfl, rfl, h2⟩) h5
+    case int.ua v s => exact pg_num_ua m op s _ .nan (Or.inl ⟨v, rfl⟩) h5
     case dbl.ua d s => exact pg_num_ua m op s _ d (Or.inr (Or.inl rfl)) h5
     case flt.ua d s => exact pg_num_ua m op s _ d (Or.inr (Or.inr (Or.inr rfl))) h5
     case dec.ua q s => exact pg_num_ua m op s _ .nan (Or.inr (Or.inr (Or.inl ⟨q, rfl⟩))) h5
